@@ -66,6 +66,16 @@ Theorem C12_reverse_partial : forall c : rctx, has_sub c = false -> close_order 
 Proof. exact reverse_partial. Qed.
 Print Assumptions C12_reverse_partial.
 
+(* the strongest restriction that is true: whenever two dependencies are finalised in the same relative order in
+   which they were opened (= an order violation), the earlier one was opened inside a sub-context - the context of a
+   use_cache=False dependency - that does not contain the later one.  This is exactly the signature of the known
+   finding; nothing broader can happen in the model. *)
+Theorem C12_reverse_partial_sharp : forall (c : rctx) x y,
+  NoDup (open_order c) -> before (open_order c) x y -> before (close_order c) x y ->
+  exists s, SubOf c s /\ In x (open_order s) /\ ~ In y (open_order s).
+Proof. exact reverse_partial_sharp. Qed.
+Print Assumptions C12_reverse_partial_sharp.
+
 (* ---- the Boolean form evaluated on implementation observations holds on every execution of the model *)
 Theorem C12_check_model : forall cf c r, NoDup (open_order c) -> C12_check cf c r (callback_effs cf c r) = true.
 Proof. exact check_model. Qed.
@@ -90,6 +100,17 @@ Example C12_failure_example :
                 [Own 0 SGen; Own 1 SCm] RFail =
   [FBegin; FOpen 0; FOpen 1; FDepFail; FClose 1 false; FClose 0 false; FSave; FAck ASaved].
 Proof. vm_compute. reflexivity. Qed.
+Example C12_sharp_nonvacuous :
+  before (open_order d6_witness) 0 1 /\ before (close_order d6_witness) 0 1 /\
+  SubOf d6_witness [Own 0 SGen] /\ In 0 (open_order [Own 0 SGen]) /\ ~ In 1 (open_order [Own 0 SGen]).
+Proof.
+  repeat split.
+  - exists [], [1]. split; [reflexivity | now left].
+  - exists [], [1]. split; [reflexivity | now left].
+  - apply sub_here. now left.
+  - now left.
+  - simpl. intuition discriminate.
+Qed.
 Example C12_interleave_example :
   Interleave (all_effs 2 (fun _ => cf0) (fun i => [Own i SGen]) (fun _ => RDone OReturn))
     [(0, FBegin); (1, FBegin); (1, FOpen 1); (0, FOpen 0); (0, FTaskStart); (1, FTaskStart); (1, FTaskEnd OReturn);
